@@ -926,6 +926,32 @@ func checkValidFilter(c *Ctx, rule string, f *ssa.Function) {
 		}
 	}
 	if len(tests) == 0 {
+		// a generic filter with a predicate: keep(element) decides, and keep is `element.Error == nil`
+		if pred, elem := predicateFilterForm(f); pred != nil && predicateIs(pred, func(v ssa.Value) bool {
+			bo, isB := v.(*ssa.BinOp)
+			if !isB || bo.Op != token.EQL {
+				return false
+			}
+			x, y := bo.X, bo.Y
+			if k, isK := x.(*ssa.Const); isK && k.IsNil() {
+				x, y = y, x
+			}
+			if k, isK := y.(*ssa.Const); !isK || !k.IsNil() {
+				return false
+			}
+			ld, isLd := x.(*ssa.UnOp)
+			if !isLd || ld.Op != token.MUL {
+				return false
+			}
+			_, fname, base, isF := fieldOfAddr(ld.X)
+			if !isF || fname != "Error" {
+				return false
+			}
+			return base == ssa.Value(elem) || sameOriginValue(pred, base, ssa.Value(elem))
+		}) {
+			c.OK(rule, key, c.Pos(f.Pos()), "a generic filter keeps an element only where its predicate says so, and the predicate is element.Error == nil")
+			return
+		}
 		c.Bad(rule, key, c.Pos(f.Pos()), "no test of WorkSpaceProof.Error in getValidProofs")
 		return
 	}
